@@ -49,7 +49,9 @@ def frameOf (rate bps : Nat) (f : Rfc.FrameRep) : Frame :=
     subframes := f.subs.map (subFrameOf f.blockSize) }
 
 def streamOf (r : Rfc.Report) : Stream :=
-  { info := ⟨r.info.minBlock, r.info.maxBlock, r.info.minFrame, r.info.maxFrame, r.info.rate, r.info.channels,
+  -- frame sizes 0/0 on the wire are the crate's "unknown" state, held as (u32::MAX, 0) in `StreamInfo`
+  let (mnf, mxf) := if r.info.minFrame = 0 ∧ r.info.maxFrame = 0 then (2 ^ 32 - 1, 0) else (r.info.minFrame, r.info.maxFrame)
+  { info := ⟨r.info.minBlock, r.info.maxBlock, mnf, mxf, r.info.rate, r.info.channels,
              r.info.bps, r.info.total, r.info.md5⟩,
     metadata := [], frames := r.frames.map (frameOf r.info.rate r.info.bps) }
 
@@ -105,6 +107,16 @@ def streamRecord (r : Record) : List Verdict × List String := Id.run do
     -- the model has no error path for valid inputs: any error/panic is a disagreement
     return ([.diff "c01.result" "ok" impl, .diff "c02.result" "ok" impl, .diff "c03.result" "ok" impl,
              .diff "c04.result" "ok" impl, .diff "c09.result" "ok" impl, .diff "c15.result" "ok" impl], [])
+  -- a stream far above the verbatim size is not decoded bit by bit (a defective encoder can emit
+  -- megabytes per frame): it is reported at once
+  let nsamples := if ch = 0 then 0 else pcm.length / ch
+  let nframes := if bs = 0 then 0 else (nsamples + bs - 1) / bs
+  let bound := 42 + nframes * (24 + ch * (bs * ((bps + 1 + 7) / 8) + 4)) + 64
+  if (r.get "impl_bytes").length / 2 > 2 * bound then
+    let msg := s!"{(r.get "impl_bytes").length / 2} bytes, more than twice the verbatim bound {bound}"
+    return ([.diff "c09.frame" "at most the verbatim size" msg, .diff "c01.decodable" "decodable in bounded space" msg,
+             .diff "c02.wellformed" "frame sizes within STREAMINFO's 24-bit fields and the verbatim bound" msg,
+             .diff "c04.framesizes" "bounded" msg, .diff "c13.cost" "optimal" msg], [])
   let bytes := unhex (r.get "impl_bytes")
   match Rfc.analyzeRec Md5.md5 bytes with
   | .error e =>
